@@ -32,15 +32,19 @@
 (* Message classes (fields are class names; "valid" always means made by   *)
 (* the concretiser with the real keys over exactly the message's fields):  *)
 (*  shares [ty, inst, set, snd, ents, idlen, extra, slot, txp, sig]        *)
-(*  keys   [ty, inst, set, ents, idlen, extra, slot, txp, signers, nsigs,  *)
-(*          sigq]                                                          *)
+(*  keys   [ty, inst, set, ents, idlen, extra, slot, txp, signers, lastidx, *)
+(*          nsigs, sigq]                                                   *)
 (*  eonpk  [ty, inst, pk, sig, big]                                        *)
 (*  trigger [ty, inst, block, sig, idn]                                    *)
 (*  commitment [ty, inst, match, nids, idhex, bidsig, digest, block]       *)
 (*   ents: one | two | none | many | unordered | invalid | badlen |        *)
 (*         undecodable          (the share / key list)                     *)
 (*   idlen: fit (identities have the SSZ size of the flavour) | off        *)
-(*   signers: good | none | fewer | more | oor | dup | unordered           *)
+(*   signers: good | none | fewer | more | dup | unordered  (shape of the   *)
+(*         signer index list; good = T strictly ascending in-range ones)   *)
+(*   lastidx: value class of the LAST signer index (the others ascend      *)
+(*         below it): in (in range) | n | n1 (= n+1) | p31 | p32 | p63m1   *)
+(*         (2^63-1) | p63 (2^63: negative as int64) | p64m1 (2^64-1)       *)
 (*   nsigs: eq | none | fewer | more   (number of signatures relative to   *)
 (*         the number of signer indices)                                   *)
 (*   sigq: valid | wrongSigner | garbage | short                           *)
@@ -141,8 +145,12 @@ ServiceSharesV(c) ==
     ELSE IF ~SigOk(m, m.sig) THEN "reject"
     ELSE "accept"
 
-(* validateSignerIndices *)
-SignerIdxOk(s) == s \notin {"oor", "dup", "unordered"}
+(* validateSignerIndices (and KeyperSet.GetSubset): the indices are compared as uint64 with the
+   size of the keyper set, so every value class other than "in" is out of range, also the ones
+   whose conversion to a signed integer is negative (p63, p64m1).  A list whose last index is
+   replaced by such a value ascends strictly, so the range check is what rejects it. *)
+LastIdxInRange(m) == SignersLen(m.signers) = 0 \/ m.lastidx = "in"
+SignerIdxOk(m) == m.signers \notin {"dup", "unordered"} /\ LastIdxInRange(m)
 
 (* the loop `for i := 0; i < len(Signatures); i++ { signer := signers[i]; CheckSignature }`:
    every signature has quality sigq; with more signatures than signers the ones that have a
@@ -157,7 +165,7 @@ SigLoop(m) ==
 GnosisKeysSigs(m) ==
     IF SignersLen(m.signers) # T THEN "reject"
     ELSE IF LenRule = "equal" /\ NSigs(m) # SignersLen(m.signers) THEN "reject"
-    ELSE IF ~SignerIdxOk(m.signers) THEN "reject"
+    ELSE IF ~SignerIdxOk(m) THEN "reject"
     ELSE SigLoop(m)
 
 (* gnosis.ValidateDecryptionKeysBasic *)
